@@ -13,6 +13,10 @@ CLAIMED = {
             "Kernel-checked theorems over the model of greatest_lower_bound (std's binary_search_by algorithm + walk-back) and lookup_token: for every position-ordered token list and every query, nothing is returned iff no token starts at or before the query, the returned token is the i-th token, lies at the greatest position not after the query and is the first of its position on an exact hit, the answer is one the declarative specification admits, and lookup cannot panic; SourceMap::new's sort yields an ordered permutation and leaves ordered input unchanged. Tied to the code by a differential run (all multisets of <= 4 positions on a 3x3 grid x 16 queries, random maps up to 60 tokens with ties, queries around every token and at u32::MAX; Token::idx observed through TokenIter::seek).",
             "Trusted: Lean kernel, the hand-written model lean/SmVerif/Model/Lookup.lean (std binary search mirrored literally), harness/driver; sort_unstable_by_key assumed to return a sorted permutation and to leave sorted input unchanged (tie order of unsorted input is not observable through the checks: ties are given pre-ordered). Ordering of maps produced by builder/rewrite/flatten/adjust is covered where those operations are modelled (they all end in SourceMap::new / an explicit sort).",
             "Lean 4 proof (bisection invariant, induction) + differential correspondence"),
+    "C19": ("7/C19",
+            "Kernel-checked theorems over the model of make_relative_path: for every base path and every target made of ordinary components (any depths, any shared prefix, both separators, repeated separators, absolute or relative), resolving the returned path against the base file's directory yields the target's components; the result is '.' exactly when the target is that directory; the common-prefix helper equals the longest-common-prefix length for two lists. Tied to the code by an exhaustive differential run over all pairs of 1..3(4)-component paths from a 3-name pool plus random deeper pairs.",
+            "Trusted: Lean kernel, hand-written model lean/SmVerif/Model/Paths.lean, harness/driver; std str::split, stable sort_by_key and join as documented. Paths are compared as component lists.",
+            "Lean 4 proof (list induction) + exhaustive small-scope differential correspondence"),
 }
 
 PENDING_REASON = "not claimed yet: model/theorems for this property are still being built (see DESIGN.md section 7); no check is registered rather than registering an unsound one"
